@@ -4,12 +4,80 @@
 
 package machos
 
+//@ macro markersOK(f *machoMarkers) bool = 28 <= f.nextLc && f.nextLc <= 4294967336 && 0 < f.linkEditHdrPos && f.linkEditHdrPos + 56 <= f.nextLc && \
+//@        0 <= f.loadCsStart && (f.loadCsStart != 0 ==> f.loadCsStart + 16 <= f.nextLc) && \
+//@        0 <= f.sigStart && f.sigStart <= 4294967295 && 0 <= f.sigLen && f.sigLen <= 4294967295 && f.ByteOrder != nil
+//@
 //@ func scanFile
 //@   property C11
 //@   nopanic
 //@   requires r != nil
+//@   ensures @recorded_positions_lie_inside_the_header_that_was_read ret1 == nil ==> ret0 != nil && markersOK(ret0)
+//@   loop 0 sig "for i := 0; i < int(f.Ncmd); i++" invariant f != nil && 28 <= endOfHeader && endOfHeader <= 4294967336 && len(dat) <= endOfHeader - 28 && f.nextLc == endOfHeader && \
+//@        0 <= f.linkEditHdrPos && (f.linkEditHdrPos != 0 ==> f.linkEditHdrPos + 56 <= endOfHeader) && \
+//@        0 <= f.loadCsStart && (f.loadCsStart != 0 ==> f.loadCsStart + 16 <= endOfHeader) && \
+//@        0 <= f.sigStart && f.sigStart <= 4294967295 && 0 <= f.sigLen && f.sigLen <= 4294967295 && f.ByteOrder != nil
 //@
 //@ func cstring
 //@   property C11
 //@   nopanic
 //@   modifies nothing
+//@
+//@ func (*machoMarkers).patchNcmd
+//@   property C11 C03
+//@   nopanic
+//@   requires f != nil && markersOK(f) && len(newHeader) >= f.nextLc && len(newHeader) <= 4294967336 && patch != nil && binpatch.repOK(patch) && binpatch.rangesOK(patch)
+//@   ensures @header_extended_only_for_a_new_load_command ret1 == nil ==> f.loadCsStart > 0 && f.loadCsStart + 16 <= len(ret0) && len(ret0) >= old(len(newHeader)) && \
+//@        len(ret0) <= old(len(newHeader)) + 16 && (old(f.loadCsStart) != 0 ==> sameslice(ret0, newHeader))
+//@   before call (*binpatch.PatchSet).Add(_, off, sz, blob): assert @only_the_command_count_and_size_fields_change off == 16 && sz == 8 && len(blob) == 8
+//@   ensures @patch_set_stays_well_formed binpatch.repOK(patch) && binpatch.rangesOK(patch)
+//@   modifies f.loadCsStart, mem(newHeader), patch.Patches, patch.Blobs, mem(patch.Patches), mem(patch.Blobs)
+//@   allocbound 0 len(newHeader) + 16
+//@
+//@ func (*machoMarkers).patchLoadCmd
+//@   property C11 C03 C08
+//@   nopanic
+//@   requires f != nil && f.ByteOrder != nil && 0 < f.loadCsStart && f.loadCsStart + 16 <= len(newHeader) && patch != nil && binpatch.repOK(patch) && binpatch.rangesOK(patch) && len(newHeader) <= 4294967352
+//@   before call (*binpatch.PatchSet).Add(_, off, sz, blob): assert @exactly_the_signature_load_command_is_rewritten off == f.loadCsStart && sz == 16 && len(blob) == 16
+//@   before call invoke encoding/binary.ByteOrder.PutUint32(_, b, v): assert @load_command_points_at_the_new_signature \
+//@        (len(b) == len(newHeader) - f.loadCsStart - 8 ==> v == sigStart % 4294967296) && (len(b) == len(newHeader) - f.loadCsStart - 12 ==> v == sigSize % 4294967296) && \
+//@        (len(b) == len(newHeader) - f.loadCsStart ==> v == 29) && (len(b) == len(newHeader) - f.loadCsStart - 4 ==> v == 16)
+//@   ensures @patch_set_stays_well_formed binpatch.repOK(patch) && binpatch.rangesOK(patch)
+//@   modifies mem(newHeader), patch.Patches, patch.Blobs, mem(patch.Patches), mem(patch.Blobs)
+//@
+//@ func align
+//@   property C11
+//@   nopanic
+//@   requires align == 8 || align == 4096
+//@   ensures @rounded_up_to_the_next_multiple addr >= 0 && addr <= 4611686018427387904 ==> ret0 >= addr && ret0 < addr + align && ret0 % align == 0
+//@   modifies nothing
+//@
+//@ func (*machoMarkers).patchLinkEdit
+//@   property C11 C03
+//@   nopanic
+//@   requires f != nil && f.ByteOrder != nil && 0 < f.linkEditHdrPos && f.linkEditHdrPos + 56 <= len(newHeader) && len(newHeader) <= 4294967352 && \
+//@        patch != nil && binpatch.repOK(patch) && binpatch.rangesOK(patch)
+//@   before call (*binpatch.PatchSet).Add(_, off, sz, blob): assert @only_the_size_fields_of_the_linkedit_command_change \
+//@        len(blob) == sz && ((f.Magic == 4277009103 && off == f.linkEditHdrPos + 32 && sz == 24) || (f.Magic != 4277009103 && off == f.linkEditHdrPos + 28 && sz == 12))
+//@   ensures @patch_set_stays_well_formed binpatch.repOK(patch) && binpatch.rangesOK(patch)
+//@   modifies mem(newHeader), patch.Patches, patch.Blobs, mem(patch.Patches), mem(patch.Blobs)
+//@
+//@ func (*machoMarkers).PatchSignature
+//@   property C11 C03 C08
+//@   nopanic
+//@   standalone
+//@   requires f != nil && markersOK(f) && len(oldHeader) == f.nextLc && 0 <= f.codeSize && f.codeSize <= 4611686018427387904 && (f.sigLen != 0 ==> f.codeSize == f.sigStart) && \
+//@        0 < sigSize
+//@   ghost adds int = 0
+//@   on call (*binpatch.PatchSet).Add(_, _, _, _) ret (): adds = adds + 1
+//@   on call (*machoMarkers).patchNcmd(_, _, _) ret (h, e): adds = adds + 1
+//@   on call (*machoMarkers).patchLinkEdit(_, _, _, _, _) ret (): adds = adds + 1
+//@   on call (*machoMarkers).patchLoadCmd(_, _, _, _, _) ret (): adds = adds + 1
+//@   before call (*binpatch.PatchSet).Add(_, off, sz, blob): assert @old_signature_region_is_what_gets_replaced \
+//@        (adds == 0 ==> off == f.sigStart && sz == f.sigLen && len(blob) == f.sigLen) && \
+//@        (adds != 0 ==> off == f.codeSize && sz == f.sigLen && len(blob) == padding + sigSize)
+//@   before call (*machoMarkers).patchLoadCmd(_, _, _, st, sz): assert @load_command_describes_the_reserved_space st == sigStart && sz == sigSize && sigStart + sigSize <= 4294967295 && (f.sigStart == 0 ==> sigStart % 8 == 0)
+//@   ensures @signature_buffer_lies_behind_the_code_and_its_padding err == nil ==> 0 <= padding && (old(f.sigStart) == 0 ==> padding < 8) && sigStart == f.codeSize + padding && \
+//@        (old(sigSize) <= 4611686018427387904 ==> len(sigBuf) >= old(sigSize))
+//@   allocbound 0 4294967295
+//@   allocbound 1 4294967295 + 8
